@@ -23,7 +23,15 @@ RULE = (
     "intermediates; then the observed run is executed in the dirty directory and in a clean one and all result "
     "files and the directory listing are compared; the CLI verify step is run on a ragged PIN next to a stale "
     "<pin>.tsv; distinct = distinct (history, crash point, observed configuration); non-trivial = the directory "
-    "was not empty when the observed run started"
+    "was not empty when the observed run started. Extension: every run may consist of 1-3 collections with their own "
+    "prefixes (prefixed first, all plain, same prefix twice, or a prefixed one after a plain one), may skip the "
+    "roll-up (do_rollup=False) and may add the protein level; stale files carry the names of the intermediates and "
+    "result files of every collection (junk or well-formed level-file content); a run that fails in the clean "
+    "directory must fail in the dirty one too; the per-file life cycle (truncate, append, unlink, move) traced on "
+    "the real code is compared with the Lean operation lists fsprogx / fsrollup / fsclimain; the roll-up tool is "
+    "run next to its own stale temporary and result files; mokapot.mokapot.main is run on 1-2 PIN files (ragged or "
+    "valid) with --dest_dir, --save_models, --aggregate, --file_root, --keep_decoys, --skip_rollup in a dirty and a "
+    "clean destination and every file of both is compared"
 )
 
 
@@ -87,17 +95,57 @@ def make_run(rng, tag):
         prefix=rng.choice([None, None, "a", "b"]), decoys=rng.random() < 0.8, dedup=rng.random() < 0.8,
         data_seed=rng.randrange(1 << 30), cconf_divides=rng.random() < 0.5,
         proteins=rng.random() < 0.3,        # protein level too (its level file is one more intermediate)
+        do_rollup=rng.random() >= 0.15,     # False: the PSM level only (no peptide level file)
+        extra=make_extra(rng),              # further collections of the same call, each with its own prefix
     )
 
 
+# prefix arrangements of a call with several collections (first entry = the run's own `prefix` field)
+PREFIX_PLANS = [
+    ("plain-plain", [None, None]), ("pre-plain", ["a", None]), ("pre-pre", ["a", "b"]),
+    ("pre-plain-plain", ["a", None, None]), ("same-prefix", ["a", "a"]), ("plain-pre", [None, "a"]),
+    ("pre-plain-pre", ["b", None, "a"]), ("empty-plain", ["", None]),
+]
+
+
+def make_extra(rng):
+    """with probability 0.35: a prefix plan for 2-3 collections; the rows of the extra collections come from their
+    own seeds and sizes (so the numbers of chunk files differ between the collections)"""
+    if rng.random() >= 0.35:
+        return None
+    name, prefixes = rng.choice(PREFIX_PLANS)
+    return dict(plan=name, prefixes=prefixes,
+                colls=[dict(data_seed=rng.randrange(1 << 30), n_spectra=rng.choice([8, 12, 20])) for _ in prefixes[1:]])
+
+
+def run_prefixes(run):
+    return list(run["extra"]["prefixes"]) if run.get("extra") else [run["prefix"]]
+
+
+def run_levels(run):
+    """names of the level files this run writes and removes, in the order of `levels_or_proteins`"""
+    lv = ["psms"]
+    if run.get("do_rollup", True):
+        lv += ["peptides"] + [P.LEVEL_FILE[c] for c in run["levels"]]
+    return lv + (["proteins"] if run.get("proteins") else [])
+
+
 def execute(run, dest, workroot, crash=None):
-    """one assign_confidence run; returns the crash counter (ops performed)"""
+    """one assign_confidence run (all its collections); returns the crash counter (ops performed, and `ks` = the
+    number of chunk files of every collection computed from the row counts)"""
     import random
 
-    r = random.Random(run["data_seed"])
-    df = mkdata.make_psm_table(r, n_spectra=run["n_spectra"], max_per_spectrum=run["max_per"], n_feat=2,
-                               label_enc="pm1", optional=("ExpMass",), level_cols=tuple(run["levels"]), signal=3.0,
-                               **(dict(letter_peptides=True, n_peptides=12) if run.get("proteins") else {}))
+    specs = [dict(data_seed=run["data_seed"], n_spectra=run["n_spectra"])] + \
+        (run["extra"]["colls"] if run.get("extra") else [])
+    prefixes = run_prefixes(run)
+    dfs = []
+    for j, sp in enumerate(specs):
+        r = random.Random(sp["data_seed"])
+        dfs.append(mkdata.make_psm_table(
+            r, n_spectra=sp["n_spectra"], max_per_spectrum=run["max_per"], n_feat=2, label_enc="pm1",
+            optional=("ExpMass",), level_cols=tuple(run["levels"]), signal=3.0,
+            **(dict(letter_peptides=True, n_peptides=12) if run.get("proteins") else {})))
+    df = dfs[0]
     kw = {}
     if run.get("proteins"):
         import mokapot
@@ -105,15 +153,20 @@ def execute(run, dest, workroot, crash=None):
         fasta = mkdata.make_fasta(12, 6, workroot / f"db-{run['tag']}.fasta")
         with contextlib.redirect_stdout(io.StringIO()), contextlib.redirect_stderr(io.StringIO()):
             kw = dict(proteins=mokapot.read_fasta(fasta, missed_cleavages=0, min_length=4), rng=1)
-    inp = workroot / f"in-{run['tag']}.{run['fmt']}"
-    mkdata.write_table(df, inp)
+    if not run.get("do_rollup", True):
+        kw["do_rollup"] = False
     if run.get("cconf_divides"):   # a chunk size that divides the row count exactly (no partial last chunk)
         divs = [c for c in range(2, len(df)) if len(df) % c == 0]
         if divs:
             run = dict(run, cconf=divs[run["data_seed"] % len(divs)])
-    ds = mkdata.read_dataset(inp)
+    datasets = []
+    for j, d in enumerate(dfs):
+        inp = workroot / (f"in-{run['tag']}.{run['fmt']}" if j == 0 else f"in-{run['tag']}-{j}.{run['fmt']}")
+        mkdata.write_table(d, inp)
+        datasets.append(mkdata.read_dataset(inp))
     with P.chunk_sizes(confidence=run["cconf"], merge=run["cmerge"]), P.pep_kernel(stub=True), crash_at(crash) as ctr:
-        P.run_assign_confidence([ds], [df["feat0"].values.astype(float)], dest, prefixes=[run["prefix"]],
+        ctr["ks"] = [-(-len(d) // run["cconf"]) for d in dfs]
+        P.run_assign_confidence(datasets, [d["feat0"].values.astype(float) for d in dfs], dest, prefixes=prefixes,
                                 decoys=run["decoys"], deduplication=run["dedup"], **kw)
     return ctr
 
@@ -126,20 +179,88 @@ def gen_case(rng):
     hist = [make_run(rng, f"h{i}") for i in range(rng.choice([1, 1, 2, 3]))]
     case = dict(history=hist, observed=make_run(rng, "obs"),
                 crash_fracs=[rng.choice([None, rng.random(), rng.random()]) for _ in hist],
-                stale=rng.random() < 0.5)
+                stale=rng.random() < 0.5,
+                stale_kind=rng.choice(["junk", "level"]))   # content of the stale level files
     return case
 
 
+JUNK = "SpecId\tLabel\tScanNr\tExpMass\tPeptide\tProteins\tscore\nstale\t1\t1\t1\tP\tQ\t9e9\n"
+
+
+def stale_level_table(obs):
+    """a well-formed level file (the columns `assign_confidence` writes into `{level}{ext}`) of some other run: if
+    the observed run reads a level file it has not written itself, it reads this one without failing"""
+    import random
+
+    import pandas as pd
+
+    df = mkdata.make_psm_table(random.Random(4711), n_spectra=10, max_per_spectrum=1, n_feat=1, label_enc="pm1",
+                               optional=("ExpMass",), signal=3.0, letter_peptides=True, n_peptides=12)
+    out = pd.DataFrame({"PSMId": ["stale_" + x for x in df["SpecId"]], "Label": df["Label"].values == 1,
+                        "peptide": df["Peptide"].values})
+    for c in obs["levels"]:
+        out[c] = ["stale"] * len(df)
+    out["proteinIds"] = df["Proteins"].values
+    out["score"] = df["feat0"].values.astype(float) + 1e7
+    return out
+
+
 def stale_files(case, dest: Path):
-    """hand-made leftovers carrying the names of the observed run's own intermediates"""
+    """hand-made leftovers carrying the names of the observed run's own intermediates and result files (for every
+    prefix of its collections)"""
     obs = case["observed"]
     ext = "." + obs["fmt"]
-    pre = f"{obs['prefix']}." if obs["prefix"] else ""
-    names = [f"{pre}scores_metadata_{i}{ext}" for i in list(range(0, 45)) + [99]]
-    names += [f"psms{ext}", f"peptides{ext}", f"{pre}targets.psms", f"{pre}decoys.peptides"]
+    names = []
+    for prefix in dict.fromkeys(run_prefixes(obs)):
+        pre = f"{prefix}." if prefix else ""
+        names += [f"{pre}scores_metadata_{i}{ext}" for i in list(range(0, 45)) + [99]]
+        names += [f"{pre}targets.psms", f"{pre}decoys.peptides", f"{pre}targets.peptides", f"{pre}targets.proteins"]
     for nm in names:
-        (dest / nm).write_text("SpecId\tLabel\tScanNr\tExpMass\tPeptide\tProteins\tscore\nstale\t1\t1\t1\tP\tQ\t9e9\n")
-    return names
+        (dest / nm).write_text(JUNK)
+    level_names = [f"psms{ext}", f"peptides{ext}", f"proteins{ext}"]
+    if case.get("stale_kind") == "level":
+        tab = stale_level_table(obs)
+        for nm in level_names:
+            mkdata.write_table(tab, dest / nm)
+    else:
+        for nm in level_names:
+            (dest / nm).write_text(JUNK)
+    return names + level_names
+
+
+def prefix_ids(prefixes):
+    """prefix strings -> what the driver expects: `none` for no prefix (None or ""), else a number per distinct prefix"""
+    ids = {}
+    out = []
+    for pf in prefixes:
+        out.append(Atom("none") if not pf else ids.setdefault(pf, len(ids)))
+    return out, ids
+
+
+def run_nl(run):
+    return len(run_levels(run)) - (1 if run.get("proteins") else 0)
+
+
+def model_args(run, ks):
+    ids, _ = prefix_ids(run_prefixes(run))
+    ks = list(ks) or [1] * len(ids)
+    return (bool(run.get("proteins")), run_nl(run), bool(run["decoys"]), False, [[i, k] for i, k in zip(ids, ks)])
+
+
+def model_refuses(run, ks):
+    """does the Lean model refuse the call (`assignOps … = none`: proteins without a peptide level)?"""
+    return common.driver_batch([req("fsprogx", *model_args(run, ks))])[0].strip() == "reject-valueerror"
+
+
+def model_predicts_dependence(run, ks):
+    """does the Lean model reject the operation list of this run (`wellInit [] … = false`)?  returns a short reason,
+    or None when the model says the run cannot depend on leftovers (then a violation is a surprise for the model too)"""
+    resp = common.driver_batch([req("fswellinitx", *model_args(run, ks))])[0]
+    if resp.strip() != "F":
+        return None
+    if run.get("proteins") and run_nl(run) < 2:
+        return "protein-level-without-peptide-level"
+    return "result-files-not-initialised"
 
 
 def run_case(chk, case, enumerate_all=False):
@@ -147,10 +268,19 @@ def run_case(chk, case, enumerate_all=False):
         clean = root / "clean"; clean.mkdir()
         dirty = root / "dirty"; dirty.mkdir()
         obs = case["observed"]
+        clean_err = None
         try:
-            execute(obs, clean, root)
+            obs_ks = execute(obs, clean, root)["ks"]
         except Exception as e:
+            # the property promises nothing for this run by itself -- but it must then fail in the dirty directory too
             chk.reject("observed-run-fails-in-clean-dir:" + type(e).__name__)
+            clean_err, obs_ks = f"{type(e).__name__}: {e}"[:200], []
+        # the model refuses exactly the calls the real code refuses with a ValueError before writing anything
+        refused_real = clean_err is not None and clean_err.startswith("ValueError") and not snapshot(clean)
+        if model_refuses(obs, obs_ks) != refused_real:
+            chk.corr_break("fsprogx-accepts", dict(case=case, model_refuses=not refused_real, impl_error=clean_err,
+                                                   impl_wrote=sorted(snapshot(clean))))
+        if clean_err is not None and (enumerate_all or not (case["stale"] or case["history"])):
             return
         ref = snapshot(clean)
         # total operation counts of the history runs (to place the crash point)
@@ -188,6 +318,8 @@ def run_case(chk, case, enumerate_all=False):
                     debris_ops.append((h["tag"], str(e), k))
                 except Exception as e:
                     debris_ops.append((h["tag"], "failed:" + type(e).__name__, k))
+            if clean_err is not None:    # leftovers a run could read without failing: well-formed level files
+                case = dict(case, stale=True, stale_kind="level")
             stale = stale_files(case, dirty) if case["stale"] else []
             before = snapshot(dirty)
             try:
@@ -203,8 +335,17 @@ def run_case(chk, case, enumerate_all=False):
             chk.count("history_len", len(plans)); chk.count("stale_files", case["stale"])
             chk.count("protein_level", bool(obs.get("proteins")))
             chk.count("debris", "crashed" if any("injected" in str(o[1]) for o in debris_ops) else "completed")
+            chk.count("collections", len(run_prefixes(obs)))
+            chk.count("prefix_plan", obs["extra"]["plan"] if obs.get("extra") else "single")
+            chk.count("do_rollup", bool(obs.get("do_rollup", True)))
+            if case["stale"]:
+                chk.count("stale_kind", case.get("stale_kind", "junk"))
             clause = None
-            if err:
+            if clean_err is not None:
+                if err is None:
+                    clause = ("the run fails in a clean directory but succeeds next to leftovers, so its results are "
+                              f"computed from them: clean run: {clean_err}")
+            elif err:
                 clause = f"the run succeeds in a clean directory but fails in the dirty one: {err}"
             else:
                 for name, content in ref.items():
@@ -215,9 +356,12 @@ def run_case(chk, case, enumerate_all=False):
                     ext = "." + obs["fmt"]
                     # this run's own intermediates: chunk files it wrote and the level files
                     own_chunk = {n for n in after if "scores_metadata_" in n and n not in before}
-                    pre = f"{obs['prefix']}." if obs["prefix"] else ""
-                    own_levels = ["psms", "peptides"] + [P.LEVEL_FILE[c] for c in obs["levels"]] \
-                        + (["proteins"] if obs.get("proteins") else [])
+                    # ... and every chunk file name of this run's index range, whether or not a stale file of that
+                    # name was there before (the run truncates and unlinks it)
+                    for prefix, k in zip(run_prefixes(obs), obs_ks):
+                        pre = f"{prefix}." if prefix else ""
+                        own_chunk |= {n for n in after if n in [f"{pre}scores_metadata_{i}{ext}" for i in range(k)]}
+                    own_levels = run_levels(obs)
                     left = sorted(n for n in after if n in [f"{ln}{ext}" for ln in own_levels])
                     # a level file that was stale before and is still there unchanged was deleted-by-name: the run
                     # truncates and later unlinks psms.<ext>/peptides.<ext>, so none may remain
@@ -226,9 +370,29 @@ def run_case(chk, case, enumerate_all=False):
                     extra = sorted(set(after) - set(before) - set(ref))
                     if clause is None and extra:
                         clause = f"files appear that a clean run does not produce: {extra}"
+            if clause is None and err is None and clean_err is None:
+                # the listing the Lean model predicts (`exec` of the operation list on a directory holding the names
+                # that were there before) vs the real listing, on the names the model knows
+                ext = "." + obs["fmt"]
+                _, ids = prefix_ids(run_prefixes(obs))
+                canon = lambda f: canon_name_x(f, ext, run_levels(obs), ids)    # noqa: E731
+                known_before = sorted({canon(f) for f in before if not canon(f)[0].startswith("other")})
+                real_after = sorted({canon(f) for f in after if not canon(f)[0].startswith("other")})
+                resp = common.driver_batch([req("fslistx", *model_args(obs, obs_ks),
+                                                [[Atom(k), i] for k, i in known_before])])[0]
+                model_after = sorted((it[0], int(it[1])) for it in dec(resp)) if resp.strip().startswith("[") else resp
+                chk.count("listing_names_before", min(len(known_before) // 10 * 10, 100))
+                if model_after != real_after:
+                    chk.corr_break("fslistx", dict(case=case, crash_point=cp,
+                                                   only_model=[x for x in model_after if x not in real_after][:20],
+                                                   only_impl=[x for x in real_after if x not in model_after][:20]))
+                    return
             if clause:
-                chk.spec_violation("leftovers:" + clause.split(":")[0][:40],
-                                   dict(case=case, crash_point=cp, debris=[str(x) for x in debris_ops], clause=clause))
+                sig, predicted = "leftovers:" + clause.split(":")[0][:40], model_predicts_dependence(obs, obs_ks)
+                if predicted:        # the Lean model of the code as it is rejects this operation list (wellInit = F)
+                    sig = "leftovers:" + predicted
+                chk.spec_violation(sig, dict(case=case, crash_point=cp, debris=[str(x) for x in debris_ops],
+                                             clause=clause, model_rejects_this_run=predicted))
                 return
 
 
@@ -285,48 +449,142 @@ def canon_name(fname, ext):
     return ("other", 0)
 
 
+def canon_name_x(fname, ext, levels, ids, root=""):
+    """file name of a real run with several collections / the protein level -> model name (kind, index);
+    `levels` = names of `levels_or_proteins` in order, `ids` = prefix string -> prefix number"""
+    name = fname[len(root):] if root and fname.startswith(root) else fname
+    pfx = None
+    head = name.split(".", 1)[0]
+    if head in ids and "." in name:
+        pfx, name = ids[head], name.split(".", 1)[1]
+    p = "" if pfx is None else str(pfx)
+    if name.startswith("scores_metadata_") and name.endswith(ext) and \
+            name[len("scores_metadata_"):len(name) - len(ext)].isdigit():
+        return (("pchunk" + p) if p else "chunk", int(name[len("scores_metadata_"):len(name) - len(ext)]))
+    for l, ln in enumerate(levels):
+        if name == f"{ln}{ext}" and pfx is None:
+            return ("level", l)
+        if name == f"targets.{ln}":
+            return (("ptarget" + p) if p else "target", l)
+        if name == f"decoys.{ln}":
+            return (("pdecoy" + p) if p else "decoy", l)
+    return ("other:" + fname, 0)
+
+
+WRITE_KIND = {"initialize": "trunc", "append_data": "append", "write": "trunc", "unlink": "unlink"}
+
+
+def life_cycles_real(labels, canon, one_piece=()):
+    """traced file operations -> per-file sequence of trunc / append / unlink (/ moved / replaced); several appended
+    batches count as one append; `writer.write(df)` (initialize + append) on a file whose kind is in `one_piece`
+    counts as one truncating write, as in the model"""
+    real = {}
+    for label in labels:
+        op, fname = label.split(":", 1)
+        if op == "move":
+            src, dst = fname.split("->")
+            real.setdefault(canon(src), []).append("moved")
+            real.setdefault(canon(dst), []).append("replaced")
+            continue
+        kind = WRITE_KIND.get(op.split(".")[-1])
+        if kind is None:
+            continue
+        nm = canon(fname)
+        seq = real.setdefault(nm, [])
+        if kind in ("append", "unlink") and seq and seq[-1] == kind:
+            continue                      # Path.unlink is seen a second time through os.unlink
+        if kind == "append" and nm in one_piece and seq and seq[-1] == "trunc":
+            continue
+        if kind == "append" and nm[0].rstrip("0123456789") in ("chunk", "pchunk") and seq and seq[-1] == "trunc":
+            continue                      # writer.write(df) = initialize + append = one `trunc` with data
+        seq.append(kind)
+    return real
+
+
+def life_cycles_model(resp):
+    model = {}
+    for item in dec(resp):
+        if item[0] in ("read", "glob"):
+            continue
+        if item[0] == "move":
+            model.setdefault((item[1], int(item[2])), []).append("moved")
+            model.setdefault((item[3], int(item[4])), []).append("replaced")
+            continue
+        seq = model.setdefault((item[1], int(item[2])), [])
+        if item[0] == "append" and seq and seq[-1] == "append":
+            continue                      # appends of consecutive collections to one result file
+        seq.append(item[0])
+    return model
+
+
 def model_listing(chk, rng):
     """correspondence with the Lean FsRun model: the per-file life cycle (truncate, append*, unlink) of every
-    file touched by a real assign_confidence run equals the one of the model's operation list `fsprog k nl decoys`"""
-    for _ in range(3):
-        # (the FsRun model has no protein level yet: its leftovers are checked on the real code in run_case)
-        run = dict(make_run(rng, "trace"), proteins=False)
+    file touched by a real assign_confidence run equals the one of the model's operation list `fsprog k nl decoys`;
+    runs with several collections, without roll-up or with the protein level are compared with `fsprogx`"""
+    for it in range(3 if chk.tier == "quick" else 12):
+        run = make_run(rng, "trace")
+        if it == 0:
+            run = dict(run, proteins=True, do_rollup=True)      # every tier traces the protein level at least once
+        general = bool(run.get("extra")) or bool(run.get("proteins")) or not run.get("do_rollup", True)
         with P.workdir() as root:
             dest = root / "d"; dest.mkdir()
             try:
                 ctr = execute(run, dest, root)
             except Exception as e:
-                chk.reject("trace-run-failed:" + type(e).__name__)
+                if isinstance(e, ValueError) and model_refuses(run, []) and not snapshot(dest):
+                    chk.case(None, ("fsprogx-refused", run_nl(run)), sample=dict(refused=str(e)[:80]))
+                    chk.count("trace_x", "refused: proteins without peptide level")
+                else:
+                    chk.reject("trace-run-failed:" + type(e).__name__)
                 continue
             ext = "." + run["fmt"]
-            real = {}
-            for label in ctr["ops"]:
-                op, fname = label.split(":", 1)
-                kind = {"initialize": "trunc", "append_data": "append", "write": "trunc", "unlink": "unlink"}.get(
-                    op.split(".")[-1])
-                if kind is None:
-                    continue
-                nm = canon_name(fname, ext)
-                seq = real.setdefault(nm, [])
-                if kind in ("append", "unlink") and seq and seq[-1] == kind:
-                    continue                      # several appended batches = one append in the model;
-                                                  # Path.unlink is seen a second time through os.unlink
-                if kind == "append" and nm[0] == "chunk" and seq == ["trunc"]:
-                    continue                      # writer.write(df) = initialize + append = one `trunc` with data
-                seq.append(kind)
-            k = sum(1 for nm in real if nm[0] == "chunk")
-            nl = sum(1 for nm in real if nm[0] == "level")
-            resp = common.driver_batch([req("fsprog", k, nl, run["decoys"])])[0]
-            model = {}
-            for item in dec(resp):
-                if item[0] == "read":
-                    continue
-                model.setdefault((item[1], int(item[2])), []).append(item[0])
-            chk.case(None, ("fsprog", k, nl, run["decoys"]), sample=dict(trace_files=len(real), k=k, nl=nl))
-            chk.count("trace", f"k={k} nl={nl}")
-            if real != model:
-                diff = {str(n): (real.get(n), model.get(n)) for n in set(real) | set(model) if real.get(n) != model.get(n)}
-                chk.corr_break("fsprog", dict(run=run, k=k, nl=nl, differing_files=diff, ops=ctr["ops"][:60]))
+            if not general:
+                real = {}
+                for label in ctr["ops"]:
+                    op, fname = label.split(":", 1)
+                    kind = {"initialize": "trunc", "append_data": "append", "write": "trunc", "unlink": "unlink"}.get(
+                        op.split(".")[-1])
+                    if kind is None:
+                        continue
+                    nm = canon_name(fname, ext)
+                    seq = real.setdefault(nm, [])
+                    if kind in ("append", "unlink") and seq and seq[-1] == kind:
+                        continue                      # several appended batches = one append in the model;
+                                                      # Path.unlink is seen a second time through os.unlink
+                    if kind == "append" and nm[0] == "chunk" and seq == ["trunc"]:
+                        continue                      # writer.write(df) = initialize + append = one `trunc` with data
+                    seq.append(kind)
+                k = sum(1 for nm in real if nm[0] == "chunk")
+                nl = sum(1 for nm in real if nm[0] == "level")
+                resp = common.driver_batch([req("fsprog", k, nl, run["decoys"])])[0]
+                model = {}
+                for item in dec(resp):
+                    if item[0] == "read":
+                        continue
+                    model.setdefault((item[1], int(item[2])), []).append(item[0])
+                chk.case(None, ("fsprog", k, nl, run["decoys"]), sample=dict(trace_files=len(real), k=k, nl=nl))
+                chk.count("trace", f"k={k} nl={nl}")
+                if real != model:
+                    diff = {str(n): (real.get(n), model.get(n)) for n in set(real) | set(model) if real.get(n) != model.get(n)}
+                    chk.corr_break("fsprog", dict(run=run, k=k, nl=nl, differing_files=diff, ops=ctr["ops"][:60]))
+                # the general operation list must say the same for this run (collOps_base on the wire)
+            levels = run_levels(run)
+            prot, nl = bool(run.get("proteins")), run_nl(run)
+            pids, ids = prefix_ids(run_prefixes(run))
+            one_piece = {("level", nl)} if prot else set()
+            realx = life_cycles_real(ctr["ops"], lambda f: canon_name_x(f, ext, levels, ids), one_piece)
+            colls = [[i, k] for i, k in zip(pids, ctr["ks"])]
+            resp = common.driver_batch([req("fsprogx", prot, nl, run["decoys"], False, colls)])[0]
+            modelx = life_cycles_model(resp)
+            chk.case(None, ("fsprogx", prot, nl, run["decoys"], str(colls)),
+                     sample=dict(trace_files=len(realx), prot=prot, nl=nl, colls=str(colls)))
+            chk.count("trace_x", f"prot={prot} nl={nl} colls={len(colls)} plan="
+                      + (run["extra"]["plan"] if run.get("extra") else "single"))
+            if realx != modelx:
+                diff = {str(n): (realx.get(n), modelx.get(n)) for n in set(realx) | set(modelx)
+                        if realx.get(n) != modelx.get(n)}
+                chk.corr_break("fsprogx", dict(run=run, prot=prot, nl=nl, colls=str(colls), differing_files=diff,
+                                               ops=ctr["ops"][:80]))
 
 
 def rollup_history_case(chk, rng):
@@ -379,6 +637,310 @@ def rollup_history_case(chk, rng):
                 return
 
 
+ROLL_ID = 9          # the number standing for the roll-up tool's file_root on the wire
+
+
+def rollup_trace_case(chk, rng):
+    """the roll-up tool, source = destination, next to stale temporary and result files of its own: (a) per-file life
+    cycle vs the Lean operation list `fsrollup`, (b) results equal those of a run in a directory holding only the
+    inputs, (c) directory listing: none of the tool's intermediates remains"""
+    import random
+    BR = P.mod("mokapot.brew_rollup")
+    base = rng.choice(["psm", "peptide"])
+    tags = rng.choice([("a", "b"), ("a", "b", "c"), ("b",)])
+    seeds = {t: rng.randrange(1 << 30) for t in "abc"}
+    old_tag = ([t for t in "abc" if t not in tags] or [None])[0]
+    stale_kind = rng.choice(["junk", "old-run"]) if old_tag else "junk"
+
+    def results_for(tag, root, dest):
+        r = random.Random(seeds[tag])
+        df = mkdata.make_psm_table(r, n_spectra=14 + seeds[tag] % 10, max_per_spectrum=2, n_feat=2, label_enc="pm1",
+                                   optional=("ExpMass",), signal=3.0)
+        df["SpecId"] = [f"{tag}_{i}" for i in range(len(df))]
+        df["Peptide"] = [f"{tag}{x}" for x in df["Peptide"]]
+        ds = mkdata.read_dataset(mkdata.write_table(df, root / f"in-{tag}.pin"))
+        with P.pep_kernel(stub=True):
+            P.run_assign_confidence([ds], [df["feat0"].values.astype(float) * 8 + "abc".index(tag)], dest,
+                                    prefixes=[tag], decoys=True, do_rollup=True)
+
+    def rollup(d):
+        with contextlib.redirect_stdout(io.StringIO()), contextlib.redirect_stderr(io.StringIO()), \
+                P.pep_kernel(stub=True), crash_at(None) as ctr:
+            BR.main(["--level", base, "-s", str(d), "-d", str(d), "-r", "roll"])
+        return ctr
+
+    with P.workdir() as root:
+        dirty = root / "dirty"; dirty.mkdir(); clean = root / "clean"; clean.mkdir()
+        try:
+            for t in tags:
+                results_for(t, root, dirty); results_for(t, root, clean)
+            if stale_kind == "old-run":          # a complete earlier roll-up over one more experiment
+                results_for(old_tag, root, dirty)
+                rollup(dirty)
+                for f in dirty.glob(f"{old_tag}.*"):
+                    f.unlink()
+            for nm in ("roll.temp.peptides", "roll.temp.psms", "roll.targets.peptides", "roll.decoys.peptides",
+                       "roll.targets.psms"):
+                if stale_kind == "junk" or not (dirty / nm).exists():
+                    (dirty / nm).write_text("psm_id\tpeptide\tscore\tproteinIds\tis_decoy\nstale\tSTALEK\t9e9\tP\tFalse\n")
+            before = snapshot(dirty)
+            ctr = rollup(dirty)
+            rollup(clean)
+        except SystemExit:
+            chk.reject("rollup-exit"); return
+        except Exception as e:
+            chk.reject("rollup-trace-failed:" + type(e).__name__); return
+        a, b = snapshot(dirty), snapshot(clean)
+        chk.case(None, ("rollup-trace", base, tags, tuple(seeds.values()), stale_kind),
+                 sample=dict(rollup_trace=True, base=base, inputs=list(tags), stale=stale_kind))
+        chk.count("rollup-trace", f"base={base} inputs={len(tags)} stale={stale_kind}")
+        # (b) results
+        for name in sorted(b):
+            if name.startswith("roll.") and ".temp." not in name and a.get(name) != b[name]:
+                chk.spec_violation("rollup-leftovers",
+                                   dict(clause=f"roll-up result {name} differs between a directory holding stale files "
+                                               "of the tool itself and a directory holding only the inputs",
+                                        base=base, tags=tags, seeds=seeds, stale_kind=stale_kind))
+                return
+        inputs_changed = [n for n in before if not n.startswith("roll.") and a.get(n) != before[n]]
+        if inputs_changed:
+            chk.spec_violation("rollup-inputs-changed", dict(clause=f"the tool changed its inputs: {inputs_changed}",
+                                                             base=base, tags=tags, seeds=seeds))
+            return
+        # (a) life cycles
+        lv = ["psms", "peptides"]
+        base_idx = {"psm": 0, "peptide": 1}[base]
+
+        def canon(fname):
+            for l, ln in enumerate(lv):
+                if fname == f"roll.temp.{ln}":
+                    return (f"temp{ROLL_ID}", l)
+                if fname == f"roll.targets.{ln}":
+                    return (f"ptarget{ROLL_ID}", l)
+                if fname == f"roll.decoys.{ln}":
+                    return (f"pdecoy{ROLL_ID}", l)
+            return ("other:" + fname, 0)
+        out_names = {(f"ptarget{ROLL_ID}", l) for l in range(len(lv))} | {(f"pdecoy{ROLL_ID}", l) for l in range(len(lv))}
+        real = life_cycles_real(ctr["ops"], canon, one_piece=out_names)
+        levels = sorted({nm[1] for nm in real if nm[0].startswith("temp")})
+        # (c) listing: the temporary files are intermediates of this run
+        left = sorted(n for n in a if n.startswith("roll.temp.") and canon(n) in real)
+        if left:
+            chk.spec_violation("rollup-intermediate-files-remain",
+                               dict(clause=f"intermediate files of the roll-up tool remain after a successful run: {left}",
+                                    base=base, tags=tags, seeds=seeds, stale_kind=stale_kind))
+            return
+        model = life_cycles_model(common.driver_batch([req("fsrollup", ROLL_ID, base_idx, levels)])[0])
+        if real != model:
+            diff = {str(n): (real.get(n), model.get(n)) for n in set(real) | set(model) if real.get(n) != model.get(n)}
+            chk.corr_break("fsrollup", dict(base=base, tags=tags, levels=levels, differing_files=diff, ops=ctr["ops"][:40]))
+
+
+@contextlib.contextmanager
+def trace_cli(counter):
+    """record `open(.., 'w'|'a'|'wb+')` and `shutil.move` of mokapot.mokapot.main and Model.save in the same label
+    format as crash_at (no source change: the module-level names `open` / `shutil` are shadowed)"""
+    import builtins
+    import types
+
+    mk = P.mod("mokapot.mokapot")
+    mm = P.mod("mokapot.model")
+
+    def traced_open(file, mode="r", *a, **kw):
+        m = str(mode)
+        if "w" in m or "a" in m or "x" in m or "+" in m:
+            counter["ops"].append(("cli.append_data:" if "a" in m else "cli.initialize:") + Path(str(file)).name)
+        return builtins.open(file, mode, *a, **kw)
+
+    def traced_move(src, dst, *a, **kw):
+        counter["ops"].append(f"move:{Path(str(src)).name}->{Path(str(dst)).name}")
+        return shutil.move(src, dst, *a, **kw)
+    proxy = types.SimpleNamespace(**{k: getattr(shutil, k) for k in dir(shutil) if not k.startswith("__")})
+    proxy.move = traced_move
+    saved_shutil = mk.shutil
+    try:
+        mk.open = traced_open
+        mm.open = traced_open
+        mk.shutil = proxy
+        yield counter
+    finally:
+        mk.shutil = saved_shutil
+        for m in (mk, mm):
+            if "open" in m.__dict__:
+                del m.__dict__["open"]
+
+
+def canon_model_file(name, content):
+    """a saved model as (class, trained?, coefficients, scaler): a fold model that failed to train is saved as the
+    grid-search object, whose `cv_results_` hold wall-clock fit times -- not a matter of leftovers"""
+    if content is None or not name.endswith(".pkl"):
+        return content
+    import pickle
+
+    try:
+        m = pickle.loads(content)
+        est = m.estimator
+        parts = [type(m).__name__, type(est).__name__, bool(m.is_trained)]
+        for obj, attrs in ((est, ("coef_", "intercept_")), (getattr(m, "scaler", None), ("mean_", "scale_"))):
+            for a in attrs:
+                v = getattr(obj, a, None)
+                parts.append(None if v is None else np.asarray(v).tobytes())
+        parts.append(tuple(getattr(m, "features", None) or ()))
+        return tuple(parts)
+    except Exception:
+        return content
+
+
+CLI_SHAPES = [(2, False), (1, False), (2, True)]     # (number of PIN files, --aggregate): every run covers all three
+
+
+def cli_main_case(chk, rng, shape=None):
+    """mokapot.mokapot.main as a whole: 1-2 PIN files (ragged or valid), --dest_dir, --save_models, --aggregate,
+    --file_root, --keep_decoys, --skip_rollup; destination and input directory dirty vs clean"""
+    import random
+    mk = P.mod("mokapot.mokapot")
+    from mokapot.parsers.pin_to_tsv import pin_to_valid_tsv
+
+    nf = rng.choice([1, 2, 2])
+    aggregate = nf == 2 and rng.random() < 0.35
+    if shape is not None:
+        nf, aggregate = shape
+    opts = dict(save_models=rng.random() < 0.7, aggregate=aggregate,
+                file_root=rng.choice([None, None, "fr"]), keep_decoys=rng.random() < 0.5,
+                skip_rollup=rng.random() < 0.25, cconf=rng.choice([40, 90, 1000]))
+    ragged = [rng.random() < 0.6 for _ in range(nf)]
+    seeds = [rng.randrange(1 << 30) for _ in range(nf)]
+    stems = ["runA", "runB"][:nf]
+    texts = []
+    for j in range(nf):
+        df = mkdata.make_psm_table(random.Random(seeds[j]), n_spectra=70, max_per_spectrum=2, n_feat=3, label_enc="pm1",
+                                   optional=("ExpMass",), signal=3.0, rowid=False)
+        lines = df.to_csv(sep="\t", index=False).splitlines()
+        if ragged[j]:                       # several protein ids in tab-separated trailing fields
+            lines = [ln + ("\tEXTRA%d" % i if i % 3 == 0 and i else "") for i, ln in enumerate(lines)]
+        texts.append("\n".join(lines) + "\n")
+    expected_inputs = []
+    for j in range(nf):
+        if ragged[j]:
+            out = io.StringIO(); pin_to_valid_tsv(f_in=io.StringIO(texts[j]), f_out=out); expected_inputs.append(out.getvalue())
+        else:
+            expected_inputs.append(texts[j])
+    root_pre = f"{opts['file_root']}." if opts["file_root"] else ""
+    prefixes = [None] * nf if (opts["aggregate"] or nf == 1) else stems
+
+    def one(dirname, root, dirtied):
+        base = root / dirname; base.mkdir(); ind = base / "in"; ind.mkdir(); dest = base / "out"
+        pins = []
+        for j in range(nf):
+            (ind / f"{stems[j]}.pin").write_text(texts[j]); pins.append(ind / f"{stems[j]}.pin")
+        if dirtied:
+            dest.mkdir()
+            for j in range(nf):
+                (ind / f"{stems[j]}.pin.tsv").write_text("STALE LEFTOVER OF AN INTERRUPTED RUN\n")
+            for pf in dict.fromkeys(prefixes):
+                pre = root_pre + (f"{pf}." if pf else "")
+                for nm in [f"{pre}scores_metadata_{i}.pin" for i in (0, 1, 2, 7)] + \
+                        [f"{pre}targets.psms", f"{pre}targets.peptides", f"{pre}decoys.psms", f"{pre}decoys.peptides"]:
+                    (dest / nm).write_text(JUNK)
+            for nm in (f"{root_pre}psms.pin", f"{root_pre}peptides.pin"):
+                (dest / nm).write_text(JUNK)     # (peptides.pin is an intermediate of this run only with the roll-up)
+            for i in (1, 2, 3):
+                (dest / f"{root_pre}mokapot.model_fold-{i}.pkl").write_bytes(b"STALE MODEL")
+        args = [str(x) for x in pins] + ["--dest_dir", str(dest), "--max_iter", "1", "--folds", "2",
+                                         "--train_fdr", "0.2", "--test_fdr", "0.2", "--seed", "3"]
+        args += ["--save_models"] if opts["save_models"] else []
+        args += ["--aggregate"] if opts["aggregate"] else []
+        args += ["--keep_decoys"] if opts["keep_decoys"] else []
+        args += ["--skip_rollup"] if opts["skip_rollup"] else []
+        args += ["--file_root", opts["file_root"]] if opts["file_root"] else []
+        before = snapshot(dest) if dest.exists() else {}
+        ctr = {"n": 0, "ops": []}
+        err = None
+        try:
+            with contextlib.redirect_stdout(io.StringIO()), contextlib.redirect_stderr(io.StringIO()), \
+                    P.chunk_sizes(confidence=opts["cconf"]), P.pep_kernel(stub=True), crash_at(None) as c2, trace_cli(c2):
+                ctr = c2
+                mk.main(args)
+        except BaseException as e:           # noqa: BLE001  (SystemExit from the argument parser included)
+            err = f"{type(e).__name__}: {e}"[:200]
+        return dict(dest=snapshot(dest) if dest.exists() else {}, ind=snapshot(ind), before=before, ops=ctr["ops"],
+                    err=err, rows=[t.count("\n") - 1 for t in texts])
+
+    with P.workdir() as root:
+        clean = one("clean", root, False)
+        dirty = one("dirty", root, True)
+    chk.case(None, ("cli-main", nf, tuple(ragged), tuple(seeds), json.dumps(opts, sort_keys=True)),
+             sample=dict(cli_main=True, nf=nf, ragged=ragged, **{k: str(v) for k, v in opts.items()}))
+    chk.count("cli-main", f"files={nf} ragged={sum(ragged)} aggregate={opts['aggregate']} models={opts['save_models']} "
+                          f"root={bool(opts['file_root'])} rollup={not opts['skip_rollup']}")
+    info = dict(nf=nf, ragged=ragged, seeds=seeds, opts=opts)
+    if clean["err"]:
+        chk.reject("cli-main-fails-in-clean-dir:" + clean["err"].split(":")[0])
+        if dirty["err"] is None:
+            chk.spec_violation("cli-main-succeeds-only-with-leftovers",
+                               dict(clause="the command line run fails in a clean destination but succeeds in a dirty "
+                                           f"one: {clean['err']}", **info))
+        return
+    if dirty["err"]:
+        chk.spec_violation("cli-main-fails-in-dirty-dir",
+                           dict(clause=f"the command line run succeeds in a clean destination but fails next to "
+                                       f"leftovers: {dirty['err']}", **info))
+        return
+    # the user's input files: the conversion of that file alone (computed by the converter called directly), or
+    # untouched; no <pin>.tsv of this run remains
+    for which, res in (("clean", clean), ("dirty", dirty)):
+        for j in range(nf):
+            got = res["ind"].get(f"{stems[j]}.pin", b"").decode()
+            if got != expected_inputs[j]:
+                chk.spec_violation("input-mixed-with-leftover",
+                                   dict(clause=f"({which} run) the user's PIN {stems[j]}.pin was replaced by content that "
+                                               "is not the conversion of that PIN alone", got=got[:300],
+                                        expected=expected_inputs[j][:300], **info))
+                return
+            if ragged[j] and f"{stems[j]}.pin.tsv" in res["ind"]:
+                chk.spec_violation("cli-temp-left", dict(clause=f"({which} run) {stems[j]}.pin.tsv remains after the "
+                                                                "verify step", **info))
+                return
+    for name, content in clean["dest"].items():
+        if canon_model_file(name, dirty["dest"].get(name)) != canon_model_file(name, content):
+            chk.spec_violation("cli-main-leftovers",
+                               dict(clause=f"file {name} written by the command line run differs between the dirty and "
+                                           "the clean destination directory", **info))
+            return
+    own_level_files = [f"{root_pre}psms.pin"] + ([] if opts["skip_rollup"] else [f"{root_pre}peptides.pin"])
+    left = sorted(n for n in dirty["dest"] if "scores_metadata_" in n and n not in dirty["before"]
+                  or n in own_level_files)
+    extra = sorted(set(dirty["dest"]) - set(dirty["before"]) - set(clean["dest"]))
+    if left or extra:
+        chk.spec_violation("cli-main-intermediates",
+                           dict(clause=f"intermediate or unexpected files after the command line run: {left + extra}", **info))
+        return
+    # life cycles vs the Lean operation list of the whole command line run
+    levels = ["psms"] + ([] if opts["skip_rollup"] else ["peptides"])
+    pids, ids = prefix_ids(prefixes)
+    ks = [-(-r // opts["cconf"]) for r in clean["rows"]]
+    nm_models = 2 if opts["save_models"] else 0
+
+    def canon(fname):
+        for j in range(nf):
+            if fname == f"{stems[j]}.pin":
+                return ("pin", j)
+            if fname == f"{stems[j]}.pin.tsv":
+                return ("pintsv", j)
+        if fname.startswith(root_pre + "mokapot.model_fold-"):
+            return ("model", int(fname.split("fold-")[1].split(".")[0]) - 1)
+        return canon_name_x(fname, ".pin", levels, ids, root=root_pre)
+    for which, res in (("clean", clean), ("dirty", dirty)):
+        real = life_cycles_real(res["ops"], canon)
+        resp = common.driver_batch([req("fsclimain", True, ragged, False, len(levels), opts["keep_decoys"],
+                                        [[i, k] for i, k in zip(pids, ks)], nm_models)])[0]
+        model = life_cycles_model(resp)
+        if real != model:
+            diff = {str(n): (real.get(n), model.get(n)) for n in set(real) | set(model) if real.get(n) != model.get(n)}
+            chk.corr_break("fsclimain", dict(which=which, differing_files=diff, ops=res["ops"][:80], **info))
+            return
+
+
 def search(chk):
     for _ in range(12 * chk.budget_mult):
         c = gen_case(chk.rng)
@@ -388,6 +950,12 @@ def search(chk):
             return
     for _ in range(5):
         cli_case(chk, chk.rng)
+    for _ in range(3):
+        rollup_trace_case(chk, chk.rng)
+        if chk.spec_violations:
+            return
+    for _ in range(2):
+        cli_main_case(chk, chk.rng)
 
 
 def main(chk, args):
@@ -395,7 +963,7 @@ def main(chk, args):
     if not build.driver_ok:
         chk.finish(build, RULE)
     model_listing(chk, chk.rng)
-    n = chk.scale(10 if chk.tier == "quick" else 60)
+    n = chk.scale(20 if chk.tier == "quick" else 60)
     for _ in range(n):
         run_case(chk, gen_case(chk.rng))
     if chk.tier == "thorough":
@@ -407,8 +975,12 @@ def main(chk, args):
             run_case(chk, c, enumerate_all=True)
     for _ in range(3 if chk.tier == "quick" else 20):
         cli_case(chk, chk.rng)
-    for _ in range(chk.scale(3 if chk.tier == "quick" else 20)):
+    for _ in range(chk.scale(5 if chk.tier == "quick" else 20)):
         rollup_history_case(chk, chk.rng)
+    for _ in range(chk.scale(4 if chk.tier == "quick" else 16)):
+        rollup_trace_case(chk, chk.rng)
+    for i in range(chk.scale(3 if chk.tier == "quick" else 8)):
+        cli_main_case(chk, chk.rng, CLI_SHAPES[i % 3] if i < 3 else None)
     lc = common.leanchecker("C09") if chk.tier == "thorough" else None
     chk.assumptions += [
         "PARTIAL: the theorems are about an abstract file system (name -> content map with truncate/append/unlink/"
@@ -416,6 +988,9 @@ def main(chk, args):
         "step; atomicity/durability inside one OS write, sqlite journal files and partially written files being "
         "syntactically broken are not modelled",
         "crash points are injected at mokapot's writer methods and unlink calls, not inside pandas/pyarrow",
+        "extension: file names are abstract (prefix ids, level positions): a user file that carries the name of an "
+        "intermediate of the run (an input called psms.pin inside the destination directory) is outside the model; "
+        "the roll-up tool is modelled with source = destination directory; brew is taken to write no file",
     ]
     chk.finish(build, RULE, search=search, lc=lc,
                trusted_extra=["tools/gen_repo.py (AST walk -> Generated/FileOps.lean)", "POSIX file semantics"])
